@@ -280,6 +280,65 @@ def check_render_fbd(run, info, n, tag):
     return compared
 
 
+def _sig_tokens(toklist):
+    return [(x[0], bytes.fromhex(x[5]).decode("utf-8", "replace")) for x in toklist
+            if x[0] not in ("Whitespace", "Newline", "Comment") and not (x[0] == "Semicolon" and x[5] == "")]
+
+
+def _drop_lonely_semicolons(a):
+    """a unit whose body holds empty statements only is Statements([]) in the tree and is written ';': drop a ';' that
+    stands between the declarations (or the unit's name) and the closing keyword"""
+    out = []
+    for j, (k, x) in enumerate(a):
+        if k == "Semicolon" and j + 1 < len(a) and a[j + 1][0] in ("EndFunctionBlock", "EndProgram"):
+            prev = a[j - 1][0] if j >= 1 else ""
+            prev2 = a[j - 2][0] if j >= 2 else ""
+            if prev == "EndVar" or (prev == "Identifier" and prev2 in ("FunctionBlock", "Program")):
+                continue
+        out.append((k, x))
+    return out
+
+
+def check_render_lib2(run, info, n, tag):
+    """renderer model for whole libraries (Model/LibRender.v render_lib2, the subject of C10_library_parse_render) vs
+    write_to_string: all significant tokens of the rendered library"""
+    rng = run.rng
+    texts = []
+    for k in range(n):
+        us, lx = gen_st.lib2_elements(rng, depth=rng.choice([1, 1, 2]))
+        if _without_program_edges(us) != us:
+            continue                      # the recorded finding: the library does not hold the edge inputs of a program
+        texts.append(gen_prog.render(lx, None if rng.random() < 0.6 else gen_prog.Spelling(rng, respell=True, nonascii=False)))
+    res = vlib.run_impl([{"id": i, "op": "roundtrip", "text": hexs(t)} for i, t in enumerate(texts)], run.workdir, per_case_timeout=30)
+    rendered = []
+    for r in res:
+        rendered.append(bytes.fromhex(r["render1"]).decode("utf-8", "replace") if isinstance(r.get("render1"), str) and r.get("render1") != "err" else None)
+    tok = vlib.run_impl([{"id": i, "op": "tok", "text": hexs(t or "")} for i, t in enumerate(rendered)], run.workdir, per_case_timeout=30)
+    model = vlib.run_model([("lib2render", i, [hexs(t)]) for i, t in enumerate(texts)], run.workdir) if info.get("extract_ok") else {}
+    compared = 0
+    keep = ("Identifier", "Digits", "SingleByteString", "DoubleByteString")
+    for i, t in enumerate(texts):
+        run.count(("lib2render", t), True, "library-renderer-model:" + tag)
+        m = model.get(str(i))
+        if rendered[i] is None or not m or m[0] != "rendered":
+            continue
+        impl = _sig_tokens(tok[i].get("tokens", []))
+        mod = []
+        for w in (m[1].split(" ") if len(m) > 1 and m[1] else []):
+            k, h = w.split(":", 1)
+            mod.append((k, "".join(chr(int(c, 16)) for c in h.split(".") if c)))
+        a = _drop_lonely_semicolons([(k, x if k in keep else "") for k, x in impl])
+        b = [(k, x if k in keep else "") for k, x in mod]
+        compared += 1
+        run.cov["traces_validated_against_impl"] += 1
+        if a != b:
+            run.cov["disagreements_checked"] += 1
+            j = next((j for j in range(min(len(a), len(b))) if a[j] != b[j]), min(len(a), len(b)))
+            run.violation("correspondence", "library renderer model and write_to_string write different tokens for %r: at token %d the model has %r, the renderer %r" % (
+                t[:100], j, b[j:j + 3], a[j:j + 3]), {"input": {"text": t}, "rendered": rendered[i]}, no_input=True)
+    return compared
+
+
 LVOC = DVOC + [kw("FUNCTION_BLOCK"), kw("END_FUNCTION_BLOCK"), kw("PROGRAM"), kw("END_PROGRAM"), ident("u9"), kw("IF"), kw("END_IF"), kw("THEN")]
 KNOWN_PROGRAM_EDGES = "program-edge-inputs-dropped"
 
